@@ -21,9 +21,11 @@ def gen(ctx, n):
         mask = r.choice(['none', 'none', '2dbool', '2dfloat', '3dbool', '3dfloat'])
         cases.append({'seed': r.randint(0, 10**6), 'E': E, 'H': H, 'bias': r.random() < 0.75, 'bkv': r.random() < 0.3, 'zattn': r.random() < 0.3,
                       'kdim': r.choice([2, 5]) if sep else None, 'vdim': r.choice([3, 5]) if sep else None, 'bf': r.random() < 0.5,
-                      'B': r.randint(1, 4), 'L': r.randint(1, 5), 'S': r.randint(1, 5), 'mask': mask, 'kpm': r.random() < 0.4, 'self_attn': (not sep) and r.random() < 0.2,
+                      'B': r.randint(1, 4), 'L': r.randint(1, 5), 'S': r.randint(1, 5), 'mask': mask, 'kpm': r.choice([False, False, False, True, True, 'float']) if not mask.endswith('bool') else (r.random() < 0.4), 'self_attn': (not sep) and r.random() < 0.2,
                       'dropout': r.choice([0.0, 0.0, 0.0, 0.3])})
     # corners the property names: batch_first with several heads and masks
+    for mask, kpm in (('none', 'float'), ('2dfloat', 'float'), ('3dfloat', 'float')):
+        cases.append({'seed': 3, 'E': 4, 'H': 2, 'bias': True, 'bkv': mask == '3dfloat', 'zattn': mask == '2dfloat', 'kdim': None, 'vdim': None, 'bf': mask == 'none', 'B': 2, 'L': 3, 'S': 4, 'mask': mask, 'kpm': kpm})
     for mask in ('none', '2dbool', '2dfloat', '3dbool'):
         for kpm in (False, True):
             cases.append({'seed': 2, 'E': 4, 'H': 2, 'bias': True, 'bkv': False, 'zattn': False, 'kdim': None, 'vdim': None, 'bf': True, 'B': 3, 'L': 2, 'S': 5, 'mask': mask, 'kpm': kpm})
